@@ -280,6 +280,7 @@ type Witness struct {
 	Inputs   map[string][]uint64
 	Observes []ObsValue
 	Schedule []int
+	Sched    [][3]int
 	Params   map[string]int
 }
 
@@ -521,7 +522,7 @@ func (m *Machine) maybeWitness() {
 		}
 		mod = term.NewEvaluator(mm)
 	}
-	w := &Witness{Harness: h.Name, Inputs: m.inputValues(mod), Schedule: append([]int(nil), m.schedule...), Params: h.Params}
+	w := &Witness{Harness: h.Name, Inputs: m.inputValues(mod), Schedule: append([]int(nil), m.schedule...), Sched: append([][3]int(nil), m.schedTrace...), Params: h.Params}
 	for _, o := range m.observes {
 		ov := ObsValue{Label: o.Label, Kind: o.Kind}
 		switch o.Kind {
